@@ -129,8 +129,12 @@ func decodePropFilter(el *propFilter) (*PropFilter, error) {
 		pf.TextMatch = &TextMatch{Text: el.TextMatch.Text}
 	}
 	if el.TimeRange != nil {
-		pf.Start = time.Time(el.TimeRange.Start)
-		pf.End = time.Time(el.TimeRange.End)
+		if el.TimeRange.Start != nil {
+			pf.Start = time.Time(*el.TimeRange.Start)
+		}
+		if el.TimeRange.End != nil {
+			pf.End = time.Time(*el.TimeRange.End)
+		}
 	}
 	for _, paramEl := range el.ParamFilter {
 		paramFi, err := decodeParamFilter(&paramEl)
@@ -151,8 +155,12 @@ func decodeCompFilter(el *compFilter) (*CompFilter, error) {
 		cf.IsNotDefined = true
 	}
 	if el.TimeRange != nil {
-		cf.Start = time.Time(el.TimeRange.Start)
-		cf.End = time.Time(el.TimeRange.End)
+		if el.TimeRange.Start != nil {
+			cf.Start = time.Time(*el.TimeRange.Start)
+		}
+		if el.TimeRange.End != nil {
+			cf.End = time.Time(*el.TimeRange.End)
+		}
 	}
 	for _, pfEl := range el.PropFilters {
 		pf, err := decodePropFilter(&pfEl)
